@@ -19,6 +19,8 @@ case "$CMD" in
     rsync -a --delete /verif/replays /verif/data /verif/KNOWN_FINDINGS.txt "$DIR/home/"
     ;;
   sync)
+    # follow /repo's HEAD (fix commits) and the current harness
+    git -C "$DIR/repo" checkout -q -- . && git -C "$DIR/repo" clean -fdq && git -C "$DIR/repo" checkout -q --detach "$(git -C /repo rev-parse HEAD)"
     rsync -a --exclude target /verif/harness/ "$DIR/harness/"
     sed -i "s|path = \"/repo\"|path = \"$DIR/repo\"|" "$DIR/harness/Cargo.toml"
     rsync -a --delete /verif/replays /verif/data /verif/KNOWN_FINDINGS.txt "$DIR/home/"
